@@ -231,13 +231,14 @@ class Scanner:
                 self.error("expected the assignment operator")
             self.skip_trivia()
 
-        if self.peek() == "&":
-            self.emit(TokenKind.POSITIVE_PREDICATE, self.next())
-            self.skip_trivia()
-        elif self.peek() == "!":
-            while self.peek() == "!":
+        while True:
+            if self.peek() == "&":
+                self.emit(TokenKind.POSITIVE_PREDICATE, self.next())
+            elif self.peek() == "!":
                 self.emit(TokenKind.NEGATIVE_PREDICATE, self.next())
-                self.skip_trivia()
+            else:
+                break
+            self.skip_trivia()
 
         if self.accept_terminal():
             self.accept_postfix_op()
